@@ -158,6 +158,60 @@ Section Fuel.
   Qed.
 End Fuel.
 
+(* ---------------------------------------------------------------- the configuration of a UnionNode replay *)
+(* UnionNode.bind replays with `replace(self.config, fail_on_converter_warnings=True)`: the
+   user's unknown-property / unknown-attribute options (and the class factory) are kept *)
+Lemma with_fail_conv_spec k :
+  fail_unknown_props (with_fail_conv k) = fail_unknown_props k
+  /\ fail_unknown_attrs (with_fail_conv k) = fail_unknown_attrs k
+  /\ cf_nodefault (with_fail_conv k) = cf_nodefault k
+  /\ fail_conv_warnings (with_fail_conv k) = true.
+Proof. repeat split. Qed.
+
+(* ... and that is the ONLY configuration the replay is ever called with *)
+Lemma union_bind_replay_config cfg c (r1 r2 : replay_t) un q t tl objs :
+  (forall root' evs', r1 (with_fail_conv cfg) root' evs' = r2 (with_fail_conv cfg) root' evs') ->
+  union_bind cfg c r1 un q t tl objs = union_bind cfg c r2 un q t tl objs.
+Proof.
+  intros H. unfold union_bind.
+  rewrite (fold_left_ext _
+    (fun (acc : value * Z) cand =>
+       let result :=
+         match cand with
+         | TClass cl => match r2 (with_fail_conv cfg) (Some cl) (PStart q (un_attrs un) (un_ns un) :: un_events un ++ [PEnd q t tl]) with
+                        | Ok v _ => v | Err _ => VNone end
+         | ty => match parse_var c true (un_meta un) (un_var un) t (un_ns un) (Some [ty]) None with
+                 | ROk (v, _) => v | RErr _ => VNone end
+         end in
+       let score := score_object result in
+       if (snd acc <? score)%Z then (result, score) else acc)); [reflexivity|].
+  intros acc cand. destruct cand; try reflexivity. rewrite H. reflexivity.
+Qed.
+
+(* an unknown element inside an element bound through a union: if it is transparent for the
+   replay of every candidate it is transparent for the union *)
+Corollary union_bind_transparent cfg c (r : replay_t) un un' q t tl objs :
+  un_attrs un' = un_attrs un -> un_ns un' = un_ns un -> un_meta un' = un_meta un -> un_var un' = un_var un ->
+  un_candidates un' = un_candidates un ->
+  (forall cl, r (with_fail_conv cfg) (Some cl) (PStart q (un_attrs un) (un_ns un) :: un_events un' ++ [PEnd q t tl])
+              = r (with_fail_conv cfg) (Some cl) (PStart q (un_attrs un) (un_ns un) :: un_events un ++ [PEnd q t tl])) ->
+  union_bind cfg c r un' q t tl objs = union_bind cfg c r un q t tl objs.
+Proof.
+  intros Ha Hn Hm Hv Hc H. unfold union_bind. rewrite Ha, Hn, Hm, Hv, Hc.
+  rewrite (fold_left_ext _
+    (fun (acc : value * Z) cand =>
+       let result :=
+         match cand with
+         | TClass cl => match r (with_fail_conv cfg) (Some cl) (PStart q (un_attrs un) (un_ns un) :: un_events un ++ [PEnd q t tl]) with
+                        | Ok v _ => v | Err _ => VNone end
+         | ty => match parse_var c true (un_meta un) (un_var un) t (un_ns un) (Some [ty]) None with
+                 | ROk (v, _) => v | RErr _ => VNone end
+         end in
+       let score := score_object result in
+       if (snd acc <? score)%Z then (result, score) else acc)); [reflexivity|].
+  intros acc cand. destruct cand; try reflexivity. rewrite H. reflexivity.
+Qed.
+
 Theorem parse_n_fuel : forall n c u cfg root evs,
   length evs <= n -> parse_n (S n) cfg c u root evs = parse_n n cfg c u root evs.
 Proof.
